@@ -5,6 +5,8 @@ import (
 	"context"
 	"fmt"
 	goat "github.com/avos-io/goat"
+	"google.golang.org/grpc"
+	"google.golang.org/grpc/metadata"
 	"sync"
 	"testing"
 
@@ -82,6 +84,8 @@ type C12Case struct {
 	Burst bool `json:"burst,omitempty"`
 	// Stats: the server has a (do-nothing) stats handler installed
 	Stats bool `json:"stats,omitempty"`
+	// BusyHandlers: the unary handler also calls grpc.SetHeader/SendHeader/SetTrailer, one of them after the headers went out
+	BusyHandlers bool `json:"busy_handlers,omitempty"`
 }
 
 func (c C12Case) names() []string {
@@ -96,7 +100,7 @@ func (c C12Case) names() []string {
 func genC12(t *rapid.T) C12Case {
 	al := c12Alphabet()
 	n := rapid.IntRange(1, 40).Draw(t, "len")
-	c := C12Case{Ser: rapid.Bool().Draw(t, "ser"), Burst: rapid.Bool().Draw(t, "burst"), Stats: rapid.IntRange(0, 2).Draw(t, "stats") == 0}
+	c := C12Case{Ser: rapid.Bool().Draw(t, "ser"), Burst: rapid.Bool().Draw(t, "burst"), Stats: rapid.IntRange(0, 2).Draw(t, "stats") == 0, BusyHandlers: rapid.IntRange(0, 2).Draw(t, "busy") == 0}
 	for i := 0; i < n; i++ {
 		if i > 0 && rapid.IntRange(0, 2).Draw(t, "repeat") == 0 {
 			c.Seq = append(c.Seq, c.Seq[i-1]) // runs of the same envelope fill the one-slot queues
@@ -110,7 +114,7 @@ func genC12(t *rapid.T) C12Case {
 // c12Enum returns the i-th sequence of exactly length n over the alphabet x ids {1,2}.
 func c12Enum(n, i int) C12Case {
 	al := len(c12Alphabet()) * 2
-	c := C12Case{Stats: i%2 == 1} // every other enumerated sequence runs against a server with a stats handler
+	c := C12Case{Stats: i%2 == 1, BusyHandlers: i%3 == 1} // configurations rotate with the index: stats handler, handlers that use the metadata API
 	for k := 0; k < n; k++ {
 		d := i % al
 		i /= al
@@ -138,6 +142,14 @@ func execC12(t *testing.T, c C12Case) (v Verdict) {
 				unaryBadReq++
 			}
 			mu.Unlock()
+			if c.BusyHandlers {
+				// an application that uses the whole handler-side API, including a call that is refused
+				_ = grpc.SetHeader(ctx, metadata.Pairs("h", "1"))
+				_ = grpc.SendHeader(ctx, metadata.Pairs("h", "2"))
+				_ = grpc.SendHeader(ctx, metadata.Pairs("h", "3")) // headers were already sent: returns an error
+				_ = grpc.SetHeader(ctx, metadata.Pairs("h", "4"))  // likewise
+				_ = grpc.SetTrailer(ctx, metadata.Pairs("t", "1"))
+			}
 			return append([]byte("re:"), req...), nil
 		})
 		svc.Unary("probe", func(ctx context.Context, req []byte) ([]byte, error) { return append([]byte("probe:"), req...), nil })
